@@ -853,7 +853,14 @@ fn check_space(sh: &mut Shard, sp: &dyn Space, name: &'static str, kind: Kind, c
                 let d1 = cx.run("distance", || sp.dist(a, m));
                 let d2 = cx.run("distance", || sp.dist(m, b));
                 if let (Some(d1), Some(d2)) = (d1, d2) {
-                    if judged {
+                    // "away from poles": an intermediate point within 0.1 degree of a pole (a route over the pole whose
+                    // ratio lands there) has a latitude computed through asin next to 1 - centimetres of conditioning
+                    // error that the statement exempts
+                    let at_pole = m.y().abs() > 89.9;
+                    if at_pole {
+                        cx.sh.class("ratio:intermediate_point_at_a_pole(observe_only)");
+                    }
+                    if judged && !at_pole {
                         cx.tol("ratio.start", "point_at_ratio_between", (d1 - r * d_ab).abs(), tau, "|d(a,m) - r*d(a,b)|");
                         cx.tol("ratio.end", "point_at_ratio_between", (d2 - (1.0 - r) * d_ab).abs(), tau, "|d(m,b) - (1-r)*d(a,b)|");
                     }
@@ -867,7 +874,11 @@ fn check_space(sh: &mut Shard, sp: &dyn Space, name: &'static str, kind: Kind, c
                     let d1 = cx.run("distance", || sp.dist(a, m));
                     let d2 = cx.run("distance", || sp.dist(m, b));
                     if let (Some(d1), Some(d2)) = (d1, d2) {
-                        if judged {
+                        let at_pole = m.y().abs() > 89.9;
+                        if at_pole {
+                            cx.sh.class("at_distance:intermediate_point_at_a_pole(observe_only)");
+                        }
+                        if judged && !at_pole {
                             cx.tol("at_distance.start", "point_at_distance_between", (d1 - s).abs(), tau, "|d(a,m) - s|");
                             cx.tol("at_distance.end", "point_at_distance_between", (d2 - (d_ab - s)).abs(), tau, "|d(m,b) - (d(a,b)-s)|");
                         }
